@@ -15,6 +15,9 @@ pub fn strip_trailing_whitespace(s: &str) -> String {
 
 /// Get the range of the string obtained from trimming in the original string.
 pub fn trim_range(s: &str, mut rng: Range<usize>) -> Range<usize> {
+    // The range may end past the text (e.g. an editor selection to EOF).
+    rng.end = rng.end.min(s.len());
+    rng.start = rng.start.min(rng.end);
     rng.end = rng.start + s[rng.clone()].trim_end().len();
     rng.start = rng.end - s[rng.clone()].trim_start().len();
     rng
